@@ -36,6 +36,20 @@ def main():
             r['bc'] = [float(model._get_rate_block_counting(n=n, b=np.array(b), k=np.array(k))) for n, b, k in case['bc']]
         if 'timescale' in case:
             r['timescale'] = [float(model._get_timescale(N)) for N in case['timescale']]
+        # the public parameters of a model object are reassigned after it has been queried: every later answer must be that
+        # of a model constructed with the new values
+        if case.get('reassign'):
+            new = case['reassign']
+            for k_, v_ in new.items():
+                if k_ != 'kind' and k_ != 'scale_time':
+                    setattr(model, k_, v_)
+            fresh = mk(dict(case['model'], **new))
+            probe = lambda mdl: ([float(mdl._get_rate(b=b, k=k)) for b, k in [(5, 2), (5, 3), (4, 4), (7, 5)]]
+                                 + [float(mdl._get_timescale(N)) for N in (0.5, 3.0)]
+                                 + [float(mdl._get_rate_block_counting(n=6, b=np.array([3, 1]), k=np.array([2, 1])))]
+                                 + [float(x[1]) for x in mdl.coalesce(4, np.array([2, 1, 0, 0]))])
+            r['reassigned'] = probe(model)
+            r['reassigned_fresh'] = probe(fresh)
         out.append(r)
     print(json.dumps({'results': out}))
 
